@@ -7,7 +7,7 @@
    for every hash function (C19_index_go, C19_index_mod). *)
 From Gws Require Import Lib.Base Model.ShardMap Spec.AtomicMap
   Proofs.LinProofs Proofs.ShardMapSeq Proofs.ShardMapConc Proofs.ShardMapLin Proofs.ShardMapLen
-  Proofs.ShardMapRange Proofs.ShardMapMutex Proofs.ShardMapExample Gen.Funcs Proofs.GenFuncsProofs.
+  Proofs.ShardMapRange Proofs.ShardMapMutex Proofs.ShardMapExample Gen.Funcs Proofs.GenShardProofs.
 
 (* ---- 1. sequential refinement ---- *)
 
